@@ -287,8 +287,11 @@ class Driver:
         for o, how in op.get('rc', ()):
             oid = oid_of(o)
             cur = self.model.current(oid)
-            if cur is None or self.base_driver is not None:
+            if cur is None:
                 continue
+            if cur[1].kind == UNCREATE and self.base_driver is not None:
+                continue    # (un-created objects on a demo storage: the
+                #              property is silent, see expect_store)
             if cur[1].kind == UNCREATE:
                 # read while it existed: the revision before the un-creation
                 revs = [x for x in self.model.revisions(oid)
